@@ -569,6 +569,35 @@ def rw_no_panic(text, log):
     return text
 
 
+_PROBE_DEFS = [
+    # std's own definitions (library/std/src/path.rs): is_dir() = fs::metadata(self).map(|m| m.is_dir()).unwrap_or(false), likewise is_file();
+    # is_symlink() = fs::symlink_metadata(self).map(|m| m.is_symlink()).unwrap_or(false)
+    (r'\.metadata\(\)\s*\.map\(\s*\|\s*(\w+)\s*\|\s*\1\.(is_dir|is_file)\(\)\s*\)\s*\.unwrap_or\(\s*false\s*\)', r'.\2()'),
+    (r'\.metadata\(\)\s*\.map_or\(\s*false\s*,\s*\|\s*(\w+)\s*\|\s*\1\.(is_dir|is_file)\(\)\s*\)', r'.\2()'),
+    (r'\.metadata\(\)\s*\.is_ok_and\(\s*\|\s*(\w+)\s*\|\s*\1\.(is_dir|is_file)\(\)\s*\)', r'.\2()'),
+    (r'\.symlink_metadata\(\)\s*\.map\(\s*\|\s*(\w+)\s*\|\s*\1\.is_symlink\(\)\s*\)\s*\.unwrap_or\(\s*false\s*\)', r'.is_symlink()'),
+    (r'\.symlink_metadata\(\)\s*\.map_or\(\s*false\s*,\s*\|\s*(\w+)\s*\|\s*\1\.is_symlink\(\)\s*\)', r'.is_symlink()'),
+    (r'\.symlink_metadata\(\)\s*\.is_ok_and\(\s*\|\s*(\w+)\s*\|\s*\1\.is_symlink\(\)\s*\)', r'.is_symlink()'),
+]
+
+
+def rw_probe_defs(text, log):
+    """R29 (automatic): std's definitions of the path probes, spelled out, are folded back into the probe: `P.metadata().map(|m| m.is_dir())
+    .unwrap_or(false)` is `P.is_dir()` (same for `is_file`; `symlink_metadata` .. `is_symlink`; also the `map_or(false, ..)` and
+    `is_ok_and(..)` spellings).  The probes are modelled as exact answers (A-probe) while a stat can fail in the model, so without this the two
+    spellings of one std function would be judged differently.  Newlines inside the matched text are kept."""
+    n = 0
+    for pat, rep in _PROBE_DEFS:
+        def sub(m):
+            nonlocal n
+            n += 1
+            return m.expand(rep) + '\n' * m.group(0).count('\n')
+        text = re.sub(pat, sub, text)
+    if n:
+        log.append('R29 %d spelled-out std definition(s) of is_dir/is_file/is_symlink folded back into the probe' % n)
+    return text
+
+
 def rw_log_errno(text, log):
     """R28 (automatic): in a function that reads `errno` (`last_os_error`) a log macro (`debug!`, `info!`, `warn!`, `error!`, `trace!`,
     `print*!`, `eprint*!`) is not erased but becomes `log_line()`, a stand-in that may replace errno (formatting a `File` readlinks under
@@ -1445,6 +1474,7 @@ def build_fn(fs, repo, effectful, table_keys, canary=False):
     text = rw_ufcs_ext(text, log)
     text = rw_no_panic(text, log)
     text = rw_log_errno(text, log)
+    text = rw_probe_defs(text, log)
     text = rw_std_prefix(text, log)
     text = rw_loop_break_head(text, log)
     if fs.external and getattr(fs, 'skipped', False):
